@@ -922,12 +922,19 @@ Box<ITV>::relation_with(const Congruence& cg) const {
   PPL_DIRTY_TEMP_COEFFICIENT(mod);
   PPL_DIRTY_TEMP_COEFFICIENT(v);
   mod = cg.modulus();
-  v = cg.inhomogeneous_term() % mod;
-  assign_r(lower, r.lower(), ROUND_DOWN);
-  v -= ((lower / mod) * mod);
-  if (v + lower > 0) {
-    v -= mod;
+  // The congruence holds where the (integral) value `e' of the
+  // homogeneous part satisfies `e == -b (mod m)': let `v' be the least
+  // such value in the interval `r' (note: `%' truncates towards zero).
+  assign_r(lower, r.lower(), ROUND_UP);
+  v = -cg.inhomogeneous_term();
+  v -= lower;
+  v %= mod;
+  if (v < 0) {
+    v += mod;
   }
+  v += lower;
+  // Check the relation of `r' with `e - v == 0'.
+  neg_assign(v);
   return interval_relation(r, Constraint::EQUALITY, v);
 }
 
